@@ -212,7 +212,11 @@ fn render_element(x: &mut X, e: &Element, rich: bool) {
         }
         Element::Coding(id, b) => {
             x.open("fx:CODING", &format!(" ID=\"{}\"", escape(id)));
-            if rich {
+            if rich && b.len() % 2 == 0 {
+                // the empty-element form of CODED-TYPE
+                x.text_el("ho:SHORT-NAME", id);
+                x.empty("ho:CODED-TYPE", &format!(" ho:BASE-DATA-TYPE=\"{}\" CATEGORY=\"STANDARD-LENGTH-TYPE\"", escape(b)));
+            } else if rich {
                 x.text_el("ho:SHORT-NAME", id);
                 x.open(
                     "ho:CODED-TYPE",
